@@ -90,6 +90,13 @@ def faults(rng, enum_ctrls, letters, spec=None, enum=None, g=None):
     if len(b) > 3:
         fs.append(("truncated", b[: rng.randint(1, len(b) - 1)]))
     fs.append(("truncated", bytes([0x06])))
+    # … and one that announces an extended length (CC II FF lo hi …), cut inside / right behind the five header bytes
+    v = rng.choice(enum["variants"])
+    ctrl = bytes(spec["by_name"][v["ty"]]["ctrl"])
+    n = rng.choice([255, 256, 300, 4096])
+    ext = ctrl + bytes([0xff, n & 255, n >> 8]) + bytes(rng.randrange(256) for _ in range(3))
+    for cut in (3, 4, 5, rng.randint(6, 8)):
+        fs.append(("truncated-extended", ext[:cut]))
     fs.append(("eof", None))
     return fs
 
@@ -152,7 +159,7 @@ def run(ctx, out):
                     else:
                         items = [ack] + [x[0] for x in pre] + ([] if fb is None else [fb])
                         good = list(pre)
-                    if fb is not None and kind != "truncated" and rng.random() < 0.5:
+                    if fb is not None and not kind.startswith("truncated") and rng.random() < 0.5:
                         items.append(rng.choice(letters)[0])       # something else queued behind the fault
                     k = rng.choice([0, 0, 0, 1, 2, 5])          # a share with short reads (every client read limited to k bytes)
                     ops.append(f"seq{'@%d' % k if k else ''} {s['name']} {cmd.hex()} " + (",".join(i.hex() for i in items) if items else "."))
@@ -182,7 +189,7 @@ def run(ctx, out):
         if why:
             out.oracle_failures.append({"op": o[:400], "observed": r[:500], "expected": " / ".join(pre) + " / [r:n] / e:<kind> / end", "key": o[:200],
                                         "what": f"{o.split()[1]} with fault {kd}: {why}"})
-    out.rule = (f"all {len(spec['sequences'])} exchanges x valid reply prefixes up to depth {depth - 1} x fault kinds (NACK 84xx, foreign control field, an acknowledgement 80 00 at a reply position, a valid reply at the acknowledgement position, undecodable body — a tag without value, or all tagged fields present and one repeated at the end —, truncated packet + close, EOF; half of the runs with every read of the client limited to 1, 2 or 5 bytes) "
+    out.rule = (f"all {len(spec['sequences'])} exchanges x valid reply prefixes up to depth {depth - 1} x fault kinds (NACK 84xx, foreign control field, an acknowledgement 80 00 at a reply position, a valid reply at the acknowledgement position, undecodable body — a tag without value, or all tagged fields present and one repeated at the end —, truncated packet + close (also cut inside / right behind an extended-length header CC II FF lo hi), EOF; half of the runs with every read of the client limited to 1, 2 or 5 bytes) "
                 "instead of the acknowledgement and at every later position, optionally with more data queued behind the fault; oracle on the implementation's event log: exactly one error, nothing but `end` after it, "
                 "no write after the failure, every 80 00 00 pairs with a yielded packet (the faulty packet is not acknowledged), valid prefix processed normally; implementation = model. non-trivial = distinct (sequence, prefix, fault)")
     out.samples = [ops[0][:300], {"op": ops[len(ops)//2][:200], "impl": impl[len(ops)//2][:300]}]
